@@ -9,7 +9,9 @@ Tie:
  (I) arbitrary spins (spin-1/2 weak decay, vector->vector, 4-body parity-conserving cascades, identical particles):
      invariant masses at p and Lambda p tied to the Minkowski model; the code's densities at p and Lambda p certified
      equal (rtol 1e-7), finite and non-negative, one symmetry generator at a time (rotation, boost, rotation+boost,
-     inversion, identical-particle exchange)."""
+     inversion, identical-particle exchange);
+ (G) layer geometry: hypothesis of C01_cascade_rotation_invariant (SU(2) relation of the helicity rotations under a common
+     rotation, azimuth shift of the next vertex, unchanged polar angle) certified by Coq-Interval on the code's angles."""
 import copy
 import math
 import random
@@ -46,6 +48,64 @@ def four_body(rnd):
 
 
 VCASES = []
+GCASES = []
+GHEADER = ("From Coq Require Import Reals.\nFrom Interval Require Import Tactic.\nFrom TFV Require Import Rot.DHom Amp.CascadeTie.\nOpen Scope R_scope.\n")
+
+
+def _su2(a, b, g):
+    uz = lambda t: np.array([[np.exp(-0.5j * t), 0], [0, np.exp(0.5j * t)]])  # noqa: E731
+    c, s_ = math.cos(b / 2), math.sin(b / 2)
+    return uz(a) @ np.array([[c, -s_], [s_, c]]) @ uz(g)
+
+
+def geometry_cases(ctx, rnd, tag, config, cfg, p4, data, nev):
+    """hypothesis of C01_cascade_rotation_invariant on the code's own angles: for a common rotation G = Rz(a)Ry(b)Rz(g) of all
+    momenta, G * R(alpha1, beta1, 0) = R(alpha1', beta1', 0) * Rz(psi) as SU(2) matrices, where psi is the shift the code applies
+    to the azimuth of the next vertex (alpha2' - alpha2, mod 2 pi / sign), and the polar angle of the next vertex is unchanged"""
+    a, b, g = rnd.uniform(-3, 3), rnd.uniform(0.2, 2.9), rnd.uniform(-3, 3)
+    ca, sa, cb, sb, cg, sg = math.cos(a), math.sin(a), math.cos(b), math.sin(b), math.cos(g), math.sin(g)
+    Rz = lambda c, s_: np.array([[c, -s_, 0], [s_, c, 0], [0, 0, 1]])  # noqa: E731
+    R = Rz(ca, sa) @ np.array([[cb, 0, sb], [0, 1, 0], [-sb, 0, cb]]) @ Rz(cg, sg)
+    q4 = ampkit.lorentz_transform(p4, rot=R)
+    d2 = config.data.cal_angle(q4)
+    top_name = list(cfg["particle"]["$top"].keys())[0]
+    for ch in data["decay"]:
+        decs = [k for k in data["decay"][ch] if hasattr(k, "core")]
+        tops = [d for d in decs if str(d.core) == top_name]
+        if not tops:
+            continue
+        top = tops[0]
+        subs = [d for d in decs if d.core == top.outs[0]]
+        if not subs:
+            continue
+        sub = subs[0]
+
+        def ang(d, dec):
+            x = d["decay"][ch][dec][dec.outs[0]]["ang"]
+            return [np.array(x[k], dtype=float) for k in ("alpha", "beta", "gamma")]
+        A1, A1p, A2, A2p = ang(data, top), ang(d2, top), ang(data, sub), ang(d2, sub)
+        for e in range(nev):
+            psi = float(A2p[0][e] - A2[0][e])
+            M = _su2(a, b, g) @ _su2(A1[0][e], A1[1][e], 0.0)
+            N = _su2(A1p[0][e], A1p[1][e], psi)
+            if abs(M + N).max() < abs(M - N).max():
+                psi += 2 * math.pi  # the other sheet of SU(2): R(.., psi + 2 pi) = - R(.., psi)
+                N = -N
+            err = float(abs(M - N).max())
+            meta = {"layer": "geometry", "config": cfg, "events": {k: v.tolist() for k, v in p4.items()}, "event": e, "chain": str(ch),
+                    "rotation_euler": [a, b, g], "first_vertex_angles": [float(A1[0][e]), float(A1[1][e])],
+                    "first_vertex_angles_rotated": [float(A1p[0][e]), float(A1p[1][e])], "azimuth_shift_next_vertex": psi,
+                    "gamma_first_vertex": [float(A1[2][e]), float(A1p[2][e])], "su2_mismatch": err,
+                    "polar_next_vertex": [float(A2[1][e]), float(A2p[1][e])]}
+            cid = "G_%s_%s_e%d" % (tag, "".join(ch_ for ch_ in str(top.outs[0]) if ch_.isalnum()), e)
+            ok0 = A1[2][e] == 0.0 and A1p[2][e] == 0.0
+            GCASES.append((cid, "geometry_ok %s %s %s %s %s %s %s %s %s" % (Rq(1e-11), Rq(a), Rq(b), Rq(g), Rq(float(A1[0][e])), Rq(float(A1[1][e])),
+                                                                    Rq(float(A1p[0][e])), Rq(float(A1p[1][e])), Rq(psi)) if ok0 else "False",
+                           "geometry_tac", meta))
+            GCASES.append((cid + "_pol", "(Rabs (cos %s - cos %s) <= %s)%%R" % (Rq(float(A2p[1][e])), Rq(float(A2[1][e])), Rq(1e-11)), "interval with (i_prec 90)", meta))
+            ctx.count("geometry:first_vertex_relation")
+            ctx.evaluations += 1
+            ctx.distinct.add((tag, "geometry", str(ch), e))
 
 
 def metamorphic(ctx, rnd, tag, cfg, p4, cases, parity_ok=True, swap=None, nmass=2):
@@ -59,6 +119,7 @@ def metamorphic(ctx, rnd, tag, cfg, p4, cases, parity_ok=True, swap=None, nmass=
         rho = np.array(amp(data))
     nev = len(rho)
     VCASES.extend(amplayers.vertex_cases(ctx, tag, cap, [0], rnd, max_comp=3, meta0={"config": cfg}))
+    geometry_cases(ctx, rnd, tag, config, cfg, p4, data, min(nev, 2))
     meta0 = {"config": cfg, "params": {k: float(v) for k, v in pars.items()}, "events": {k: v.tolist() for k, v in p4.items()}}
     for e in range(nev):
         ok = math.isfinite(rho[e]) and rho[e] >= 0
@@ -143,6 +204,9 @@ def search(ctx, fails):
         if m.get("layer") == "frame_invariance":
             return {"config": m["config"], "params": m["params"], "events": m["events"], "transform": m["transform"], "transform_args": m.get("transform_args"),
                     "event": m["event"], "density_p": m["density_p"], "density_Lambda_p": m["density_Lp"]}
+        if m.get("layer") == "geometry" and (m["su2_mismatch"] > 1e-9 or abs(math.cos(m["polar_next_vertex"][0]) - math.cos(m["polar_next_vertex"][1])) > 1e-9
+                                             or m["gamma_first_vertex"] != [0.0, 0.0]):
+            return {k: m[k] for k in m if k != "layer"}
         if m.get("layer") == "finite_nonneg":
             return {"config": m["config"], "params": m["params"], "events": m["events"], "event": m["event"], "density": m["impl_density"]}
     r = c04.search(ctx, fails)
@@ -151,7 +215,8 @@ def search(ctx, fails):
 
 def run(ctx):
     del VCASES[:]
-    ctx.extra_targets = ["Amp/Chain.vo"]
+    del GCASES[:]
+    ctx.extra_targets = ["Amp/Chain.vo", "Amp/CascadeTie.vo"]
     rnd = random.Random(ctx.seed * 1000003 + 1)
     ctx.rule = ("spin-0 three-chain configs: closed-form layers at p and at Lambda p for Lambda in {rotation, boost(|v|<=0.9), rot+boost, inversion}; spinful: spin-1/2 weak decay, "
                 "vector->vector+2 scalars, 4-body vector->4 scalars via (VV) and (A->V) cascades, identical spin-0 pair: densities at p vs Lambda p, one generator at a time; "
@@ -204,14 +269,17 @@ def run(ctx):
         ctx.sample({"case": c[0], "goal": c[1][:300], "layer": c[3].get("layer")}, cap=12)
     res_ = common.coq_cases(ctx, "c01", HEADER, [c[:3] for c in cases], per_file=8, case_timeout=60)
     res_.update(common.coq_cases(ctx, "c01v", amplayers.HEADER, [c[:3] for c in VCASES], per_file=6, case_timeout=90))
-    cases = cases + VCASES
+    res_.update(common.coq_cases(ctx, "c01g", GHEADER, [c[:3] for c in GCASES], per_file=2, case_timeout=120))
+    cases = cases + VCASES + GCASES
     for cid, stmt, tac, meta in cases:
         if res_[cid] != "OK":
             ctx.fail(meta["layer"], cid, "layer %s does not check (%s)" % (meta["layer"], res_[cid]), inp=meta,
                      site="frame:" + meta["layer"] + ":" + str(meta.get("transform", "")), fingerprint=meta["layer"])
     return common.finish(ctx, search=search, technique=TECHNIQUE, extra_assumptions=[
-        "PARTIAL: for cascades with spin the end-to-end invariance is not a theorem of the model (missing: angle transformation law, D group law, alignment invariance); "
-        "those configurations are decided by the certified comparison of the code with itself at p and Lambda p plus the tied layers",
+        "cascades with spin: rotation invariance of one topology is a theorem (C01_cascade_rotation_invariant) whose geometric hypothesis (the SU(2) relation between the first-vertex "
+        "angles before/after and the azimuth shift of the next vertex) is certified on the code's own angles (layer geometry); PARTIAL: several topologies interfering (alignment "
+        "rotations), boosts (Wigner rotations) and the derivation of the geometric relation from the kinematic model are not theorems: decided by the certified comparison of the "
+        "code with itself at p and Lambda p plus the tied layers",
         "tolerance rtol 1e-7 on densities (boosts up to |v|=0.9)"])
 
 
